@@ -183,7 +183,8 @@ def check_value_linear(e, op, ty):
         x = dom.sym("x")
 
         def ev(nums_):
-            r = api.run(e, dom, "eval", ty, lambda d, nums_=nums_: list(nums_) + [d.sym("x")])
+            # per-path (IntOfLogPoly4::evaluate legitimately forks on the series/closed-form thresholds)
+            r = api.run(e, dom, "eval", ty, lambda d, nums_=nums_: list(nums_) + [d.sym("x")], merge=False)
             return [(pp, nn[0].t) for (pp, nn, _) in r if pp.panic is None]
         syms = [dom.sym(nm) for nm in names]
         fa = ev(syms[:n])
